@@ -150,14 +150,16 @@ def numText (s : Str) : Bool := s.all numChar
 
 /-- the header record kinds whose columns the parser cuts exactly as RINEX 3.04 defines them (for the version
 record: the version field F9.2 plus the 11 blank columns after it), with the handler the parser registers
-for their label -/
+for their label; `GSLOTP` / `GBIASP` are `GLONASS SLOT / FRQ #` (first and continuation lines) and
+`GLONASS COD/PHS/BIS` with each slot/frequency resp. type/bias pair written as one cell -/
 def plainKinds : List (String × String) :=
   [("VER3", "_parse_string"), ("PGM", "_parse_string"), ("COM", "_parse_comment"), ("MNUM", "_parse_string"),
    ("MTYPE", "_parse_string"), ("OBSAG", "_parse_string"), ("REC", "_parse_string"), ("ANT", "_parse_string"),
    ("POS", "_parse_approx_position"), ("DHEN", "_parse_float"), ("DXYZ", "_parse_float"), ("SSU", "_parse_string"),
    ("INTERVAL", "_parse_float"), ("TFIRST", "_parse_time_of_first_obs"), ("TLAST", "_parse_time_of_last_obs"),
    ("RCVCLK", "_parse_string"), ("DCBS", "_parse_sys_dcbs_applied"), ("PCVS", "_parse_sys_pcvs_applied"),
-   ("LEAP3", "_parse_leap_seconds"), ("NSAT", "_parse_integer")]
+   ("LEAP3", "_parse_leap_seconds"), ("NSAT", "_parse_integer"),
+   ("GSLOTP", "_parse_glonass_slot"), ("GBIASP", "_parse_glonass_code_phase_bias")]
 
 def handlerOf (kind : String) : String :=
   if kind = "MNAME" then "_parse_string"
@@ -212,11 +214,12 @@ def SatRec.wf (hdr : List HdrRec) (r : SatRec) : Bool :=
   decide (r.obs.length = (typesOf hdr (r.sat.take 1)).length) && decide (r.obs.length ≤ 40) &&
   r.obs.all Obs.wf
 
-/-- a special record of an event epoch: any header record of the standard whose label starts with a letter (all
-but `# / TYPES OF OBSERV` and `# OF SATELLITES`) and whose line does not start with `>` -/
+/-- a special record of an event epoch: any header record of the standard (`# OF SATELLITES` included) whose line
+does not start with `>` and is no observation line for the label heuristic (first column a letter and column 61 not
+a letter — only possible for a label that starts with `#`) -/
 def specialOk (kc : String × List Str) : Bool :=
   (findKind kc.1).isSome && okCells kc.1 kc.2 &&
-  ((spec kc.1).label.toList.head?.map Char.isAlpha).getD false &&
+  (((spec kc.1).label.toList.head?.map Char.isAlpha).getD false || !alphaAt (rec kc.1 kc.2) 0) &&
   !startsWith ['>'] (rec kc.1 kc.2)
 
 def Epoch.wf (hdr : List HdrRec) (e : Epoch) : Bool :=
